@@ -4,6 +4,7 @@
 use jsonpath_rust::parser::model::JpQuery;
 use jsonpath_rust::parser::parse_json_path;
 use jsonpath_rust::query::js_path_process;
+use jsonpath_rust::query::queryable::Queryable;
 use jsonpath_rust::JsonPath;
 use serde_json::{json, Value};
 use std::sync::Arc;
@@ -75,6 +76,11 @@ fn main() {
         expected.push(per);
     }
     let expected = Arc::new(expected);
+    // reference(): every thread resolves its own paths (all paths of the document, rotated per thread)
+    let all_paths: Vec<String> = doc.query_only_path("$..*").unwrap_or_default();
+    let ref_expected: Vec<String> = all_paths.iter().map(|p| doc.reference(p.clone()).map(|v| v.to_string()).unwrap_or("None".into())).collect();
+    let all_paths = Arc::new(all_paths);
+    let ref_expected = Arc::new(ref_expected);
     let n_threads = 2 + (splitmix(&mut seed) % 2) as usize;
     let mut hs = vec![];
     for t in 0..n_threads {
@@ -83,7 +89,19 @@ fn main() {
         let expected = expected.clone();
         let mut s = seed ^ (t as u64 + 1).wrapping_mul(0x9E37);
         let n_ops = if with_regex { 1 } else { 2 + (splitmix(&mut s) % 3) as usize };
+        let all_paths = all_paths.clone();
+        let ref_expected = ref_expected.clone();
         hs.push(std::thread::spawn(move || {
+            if !with_regex && !all_paths.is_empty() {
+                for r in 0..4 {
+                    let i = (t * 3 + r * 5) % all_paths.len();
+                    let got = doc.reference(all_paths[i].clone()).map(|v| v.to_string()).unwrap_or("None".into());
+                    if got != ref_expected[i] {
+                        eprintln!("MISMATCH thread={} reference({}) expected={} got={}", t, all_paths[i], ref_expected[i], got);
+                        std::process::exit(3);
+                    }
+                }
+            }
             for _ in 0..n_ops {
                 let qi = (splitmix(&mut s) % qs.len() as u64) as usize;
                 let k = splitmix(&mut s) % 4;
